@@ -1,0 +1,11 @@
+//go:build verif
+
+// Verification hooks: thin exported wrappers around unexported functions.
+// Compiled only with `-tags verif`; they add no behaviour.
+
+package util
+
+// VerifProcessYaml exposes processYaml.
+func (t *TestRenumberer) VerifProcessYaml(ruleId string, contents []byte) ([]byte, error) {
+	return t.processYaml(ruleId, contents)
+}
